@@ -179,7 +179,7 @@ class ModifiedHalfNormal(Distribution):
         return self._MHN_sample_gamma_proposal(alpha, beta, gamma, rng=rng)
 
     def _sample(self, N, rng=None):
-        if hasattr(self.alpha, '__getitem__'):
+        if np.ndim(self.alpha) > 0:
             return np.array([self._MHN_sample(self.alpha[i], self.beta[i], self.gamma[i], rng=rng) for i in range(N)])
         else:
             return np.array([self._MHN_sample(self.alpha, self.beta, self.gamma, rng=rng) for i in range(N)])
